@@ -53,6 +53,10 @@ def op_spec(d):
     item = {}
     for p in d.get("params", []):
         o = {"name": p["name"], "in": p["in"], "schema": param_schema(p.get("type", "string"))}
+        if p.get("type") == "noschema":
+            # described by `content` instead of `schema`: the generator types it `Option<String>`
+            del o["schema"]
+            o["content"] = {"application/json": {"schema": {"type": "object"}}}
         if p.get("required") or p["in"] == "path":
             o["required"] = True
         for k in ("style", "explode"):
